@@ -15,6 +15,9 @@ def parseOp (s : String) : Option Op :=
   | ["del"] => some .delete
   | ["cre"] => some .create
   | ["p"] => some .poll
+  -- content the file holds before the tailer starts: the stream opens at the end of the file, so
+  -- for the model (which describes the file from the tailer's first look on) nothing happens
+  | ["pre", _] => some .poll
   | _ => none
 
 def handle (f : List String) : String :=
